@@ -164,4 +164,14 @@ def extra_coverage(reports, tier):
     return {'programs': max(1, _stats['programs']), 'disagreements_checked': _stats['disagreements'], 'exhaustive': True}
 
 
-RULES = [r1_ebnf_vs_parser, r2_ebnf_vs_model, r3_config]
+def r4_regeneration_literals(a, tier):
+    """regenerating the bootstrap parser: the operands of the grammar's own constants (`None` after @@whitespace ::, `True` ...)
+    reach the regenerated source unchanged - the leaf emitters of the code generator, decided as in C02.R6"""
+    from .c02 import r6_leaf_literals
+    rep = r6_leaf_literals(a, tier, rule_id='C15.R4')
+    rep.text = ('regenerating the shipped parser from tatsu/_tatsu.ebnf keeps the operands of its constants and tokens (e.g. the `None` '
+                'of a value-less @@whitespace directive): ' + rep.text)
+    return rep
+
+
+RULES = [r1_ebnf_vs_parser, r2_ebnf_vs_model, r3_config, r4_regeneration_literals]
